@@ -66,19 +66,24 @@ def run(tier, seed, build):
             res.violations.append({"signature": "result-generation-crash", "case": case})
             continue
         # correspondence (both rounds)
+        pinned = True
         if "__error__" in mo or mo.get("outcome") != "ok":
             res.disagreements.append({"case": case, "model": mo})
+            pinned = False
         else:
             for r in (0, 1):
                 mm = rl.canon_model_round(mo["rounds"][r])
                 ii = rl.strip_calls(im2["rounds"][r])
                 if mm != ii:
                     res.disagreements.append({"case": case, "round": r, "impl": ii, "model": mm})
+                    pinned = False
                     break
         # property oracle
         bj, mj = json.loads(before), json.loads(mid)
         if before != mid:
             kind = classify_mutation(bj, mj, n_res)
+            if not pinned:
+                kind = kind.replace("ir-mutated:", "ir-mutated:not-the-pinned-behaviour:", 1)
             res.count("ir:" + kind)
             res.violations.append({"signature": kind, "case": case})
         else:
@@ -88,6 +93,8 @@ def run(tier, seed, build):
         if r1 != r2:
             feats = rl.other_roots_features(snap, c03.sigs_from_source(src))
             f = next((x for x in rl.FEATURE_PRIORITY + ["cycle"] if x in feats), "clean-fragment")
+            if not pinned:
+                f = "not-the-pinned-behaviour:" + f
             res.count("second-generation-differs:" + f)
             res.violations.append({"signature": "second-generation-differs:" + f, "case": case,
                                    "first": r1, "second": r2})
